@@ -4,10 +4,11 @@
   every run against what the source says *now*.
 -/
 import SFModel.Slice
+import SFModel.Blocks
 import SFModel.Gen.Slice
 
 namespace SF.Bridge
-open SF
+open SF SF.TB
 
 theorem inclusive_bridge (key : PySlice) (offset : Int) :
     Gen.slice_to_inclusive_slice key offset = some (sliceToInclusive key offset) := by
@@ -50,5 +51,101 @@ theorem cols_bridge (l : List Int) : Gen._cols_to_slice l = colsToSlice l := by
       simp only [List.length_cons]; omega
     simp only [Gen._cols_to_slice, colsToSlice, List.head?_cons, hl, if_neg hlen]
     try (split <;> simp_all)
+
+/-! ### `TypeBlocks._indices_to_contiguous_pairs` (a generator: loop with state `(last, bundle)`)
+
+  The translated loop carries the list of values yielded so far (`out`) and `bundle` as
+  `Option (List Int)` (`none` = not yet bound); the reference `contiguousPairsInt` (Slice.lean) is the
+  same loop without either.  `contiguous_bridge` states the result for the block model's reference
+  `TB.contiguousPairs` (Blocks.lean; naturals, slices wrapped as `BSel.sl`). -/
+
+theorem contiguous_loop_some (l : List (Int × Int)) :
+    ∀ (lb lc : Int) (bundle : List Int) (out : List (Int × PySlice)),
+      Gen.indices_to_contiguous_pairs_loop l (some (lb, lc)) (some bundle) out
+        = (contiguousPairsInt l (some (lb, lc)) bundle).map (out ++ ·) := by
+  induction l with
+  | nil =>
+    intro lb lc bundle out
+    simp only [Gen.indices_to_contiguous_pairs_loop, contiguousPairsInt, cols_bridge]
+    by_cases h : bundle.isEmpty
+    · simp [h]
+    · simp only [h]
+      cases colsToSlice bundle <;> simp
+  | cons p rest ih =>
+    obtain ⟨b, c⟩ := p
+    intro lb lc bundle out
+    simp only [Gen.indices_to_contiguous_pairs_loop, contiguousPairsInt, cols_bridge, ih]
+    by_cases h1 : lb = b
+    · by_cases h2 : (c - lc).natAbs = 1
+      · have h2' : ((c - lc).natAbs : Int) = 1 := by omega
+        simp [h1, h2]
+      · have h2' : ¬ ((c - lc).natAbs : Int) = 1 := by omega
+        simp only [h1, h2, h2', and_false, if_false, if_true]
+        cases colsToSlice bundle <;> cases contiguousPairsInt rest (some (b, c)) [c] <;> simp
+    · simp only [h1, false_and, if_false]
+      cases colsToSlice bundle <;> cases contiguousPairsInt rest (some (b, c)) [c] <;> simp
+
+theorem contiguous_loop_none (l : List (Int × Int)) (bundle? : Option (List Int)) (bundle : List Int)
+    (out : List (Int × PySlice)) :
+    Gen.indices_to_contiguous_pairs_loop l none bundle? out
+      = (contiguousPairsInt l none bundle).map (out ++ ·) := by
+  match l with
+  | [] => simp [Gen.indices_to_contiguous_pairs_loop, contiguousPairsInt]
+  | (b, c) :: rest =>
+    simp only [Gen.indices_to_contiguous_pairs_loop, contiguousPairsInt, contiguous_loop_some]
+
+/-- the translated `_indices_to_contiguous_pairs` is the reference loop from the initial state -/
+theorem contiguous_ref_bridge (l : List (Int × Int)) :
+    Gen.indices_to_contiguous_pairs l = contiguousPairsInt l none [] := by
+  rw [Gen.indices_to_contiguous_pairs, contiguous_loop_none l none []]
+  cases contiguousPairsInt l none [] <;> simp
+
+/-- Python ints of a `(block, column)` pair of the block model -/
+def pairToInt (p : Nat × Nat) : Int × Int := ((p.1 : Int), (p.2 : Int))
+/-- a yielded `(block, slice)` pair as the block model holds it -/
+def pairToBlock (q : Int × PySlice) : Nat × BSel := (q.1.toNat, .sl q.2)
+
+theorem contiguousPairsInt_cast (l : List (Nat × Nat)) :
+    ∀ (last : Option (Nat × Nat)) (bundle : List Nat),
+      (contiguousPairsInt (l.map pairToInt) (last.map pairToInt) (bundle.map Int.ofNat)).map (·.map pairToBlock)
+        = contiguousPairs l last bundle := by
+  induction l with
+  | nil =>
+    intro last bundle
+    match last with
+    | none => simp [contiguousPairsInt, contiguousPairs]
+    | some (lb, lc) =>
+      simp only [List.map_nil, Option.map_some, pairToInt, contiguousPairsInt, contiguousPairs, List.isEmpty_map]
+      by_cases h : bundle.isEmpty
+      · simp [h]
+      · simp only [h]
+        cases colsToSlice (bundle.map Int.ofNat) <;> simp [pairToBlock]
+  | cons p rest ih =>
+    obtain ⟨b, c⟩ := p
+    intro last bundle
+    match last with
+    | none =>
+      have := ih (some (b, c)) [c]
+      simpa [contiguousPairsInt, contiguousPairs, pairToInt] using this
+    | some (lb, lc) =>
+      have ih1 := ih (some (b, c)) (bundle ++ [c])
+      have ih2 := ih (some (b, c)) [c]
+      simp only [List.map_cons, Option.map_some, pairToInt, contiguousPairsInt, contiguousPairs] at ih1 ih2 ⊢
+      by_cases h : lb = b ∧ (c = lc + 1 ∨ lc = c + 1)
+      · have h' : (lb : Int) = (b : Int) ∧ ((c : Int) - (lc : Int)).natAbs = 1 := by omega
+        rw [if_pos h, if_pos h', ← ih1]
+        simp
+      · have h' : ¬ ((lb : Int) = (b : Int) ∧ ((c : Int) - (lc : Int)).natAbs = 1) := by omega
+        rw [if_neg h, if_neg h', ← ih2]
+        simp only [List.map_nil, Int.ofNat_eq_natCast]
+        generalize contiguousPairsInt (rest.map pairToInt) (some ((b : Int), (c : Int))) [(c : Int)] = q
+        cases colsToSlice (bundle.map Int.ofNat) <;> cases q <;> simp [pairToBlock]
+
+/-- the translated `_indices_to_contiguous_pairs`, on the `(block, column)` pairs of the block model,
+    is the reference `contiguousPairs` the theorems about `TB` (C03, C08) use -/
+theorem contiguous_bridge (l : List (Nat × Nat)) :
+    (Gen.indices_to_contiguous_pairs (l.map pairToInt)).map (·.map pairToBlock) = contiguousPairs l none [] := by
+  rw [contiguous_ref_bridge]
+  exact contiguousPairsInt_cast l none []
 
 end SF.Bridge
